@@ -405,17 +405,25 @@ KINDS = [0, 1, 3, 4, 1059, 9999, 10000, 19999, 20000, 29999, 30000, 39999, 40000
 CLENS = [0, 1, 7, 8, 100, 1900, 2048, 5000]
 
 
+NASTY_VALS = [b"x", b"y", b"T" * 200, b"T" * 182 + b"z", b"", b"x:y", b"a]b", b"q\"uote", "é".encode(), b"x\x00"]
+LETTERS = ["t", "p", "e", "q", "r", "client", "-", "tt"]
+
+
 def u_random(seed, n=14, nauthors=2, param_bias=True):
+    """Seeded byte-level universe with deliberately nasty values: d values with NUL / ':' / > 182 bytes / shared prefixes,
+    kinds on every class boundary, ties, NIP-40 expiration tags (past and future), future-dated events, the minimal event,
+    events larger than two pages, one value under several letters, name-only and empty tags, gift-wraps with several p tags,
+    deletion requests with own / foreign / absent targets and (rarely) hundreds of tags."""
     rnd = random.Random(seed)
     u = Universe("r%d" % seed, nauthors=nauthors, nabsent=1)
     plan = []
     for i in range(1, n + 1):
         au = rnd.randint(1, nauthors)
         r = rnd.random()
-        ts = rnd.choice([10, 10, 11, 12, 15, 20, 20, 30])
+        ts = rnd.choice([10, 10, 11, 12, 15, 20, 20, 30, 1900000000])
         if r < 0.30:
             kind = rnd.choice([30000, 30000, 39999])
-            tags = [["d", rnd.choice(NASTY_D)]]
+            tags = [["d", rnd.choice(NASTY_D + [b"x:y", b":"])]]
             if rnd.random() < 0.3:
                 tags.append(["t", rnd.choice(["x", "y"])])
         elif r < 0.45:
@@ -423,28 +431,39 @@ def u_random(seed, n=14, nauthors=2, param_bias=True):
             tags = []
         elif r < 0.65:
             kind = rnd.choice([1, 4, 9999, 40000, 1059, 65535])
-            tags = [[rnd.choice(["t", "p", "e", "client"]), rnd.choice([b"x", b"y", b"T" * 200, b"T" * 182 + b"z", b""])]
-                    for _ in range(rnd.randint(0, 3))]
+            tags = []
+            shared = rnd.choice(NASTY_VALS)
+            for _ in range(rnd.randint(0, 4)):
+                name = rnd.choice(LETTERS)
+                if rnd.random() < 0.12:
+                    tags.append([name] if rnd.random() < 0.5 else [])          # name-only / empty tag
+                else:
+                    tags.append([name, shared if rnd.random() < 0.4 else rnd.choice(NASTY_VALS)])
             if kind == 1059:
                 tags.append(["p", ("pk", rnd.randint(1, nauthors))])
+                if rnd.random() < 0.4:
+                    tags.append(["p", ("pk", rnd.randint(1, nauthors))])
         elif r < 0.72:
             kind = rnd.choice([20000, 29999])
             tags = []
         else:
             kind = 5
             tags = None  # filled below (needs the other events)
+        if tags is not None and rnd.random() < 0.12:
+            tags.append(["expiration", rnd.choice(["1", "1000", "99999999999"])])
         plan.append((au, kind, ts, tags))
-    # addresses that exist, for "a" targets
     for i, (au, kind, ts, tags) in enumerate(plan, start=1):
         if tags is None:
             tags = []
+
             def other_id():
                 # an event id is the hash of the event's own content: a request can never name itself
                 while True:
                     t = rnd.randint(1, n + 1)
                     if t != i:
                         return t
-            for _ in range(rnd.randint(1, 3)):
+            ntags = rnd.randint(1, 3)
+            for _ in range(ntags):
                 if rnd.random() < 0.5:
                     tags.append(["e", ("ev", other_id())])
                 else:
@@ -462,8 +481,12 @@ def u_random(seed, n=14, nauthors=2, param_bias=True):
                         if len(d) > 400:
                             d = b"x"  # the marker key would exceed LMDB's 511-byte key limit
                     tags.append(["a", ("addr", ckind, cau, d)])
+            if rnd.random() < 0.06 and tags[0][0] == "e":
+                # a long request: hundreds of (repeated) targets; its last tag may be foreign
+                tags = tags[:1] + [tags[0]] * rnd.choice([255, 256, 300]) + tags[1:]
             ts = rnd.choice([12, 15, 20, 25, 40])
-        u.add(au, kind, ts, tags, clen=rnd.choice(CLENS))
+        clen = rnd.choice(CLENS + [9000, 20000] if rnd.random() < 0.3 else CLENS)
+        u.add(au, kind, ts, tags, clen=clen)
     return u.finish()
 
 
